@@ -789,6 +789,21 @@ emitCollectIntermedSymes(Stab stab, Foam foam)
  ****************************************************************************/
 
 /*
+ * Close an output file.  A write, flush or close which failed (device full...)
+ * must not pass for success: report it through the file error path and stop.
+ */
+local void
+emitFileClose(FILE *fout, FileName fn)
+{
+	Bool	bad = ferror(fout) != 0;
+
+	if (fclose(fout) != 0) bad = true;
+	if (bad)
+		comsgFatal(NULL, ALDOR_F_CantOpenMode, fnameUnparseStatic(fn),
+			   "w (write failed)");
+}
+
+/*
  * Emit the .ai file of included source.
  */
 void
@@ -801,7 +816,7 @@ emitTheIncluded(EmitInfo finfo, SrcLineList sll)
 	emitInfoInUse(finfo, FTYPENO_INCLUDED) = true;
 	fout = fileWrOpen(fn);
 	inclWrite(fout, sll);
-	fclose(fout);
+	emitFileClose(fout, fn);
 	emitInfoInUse(finfo, FTYPENO_INCLUDED) = false;
 	emitSetDone(FTYPENO_INCLUDED);
 }
@@ -819,7 +834,7 @@ emitTheAbSyn(EmitInfo finfo, AbSyn absyn)
 	emitInfoInUse(finfo, FTYPENO_ABSYN) = true;
 	fout = fileWrOpen(fn);
 	abWrSExpr(fout, absyn, emitSxIoMode);
-	fclose(fout);
+	emitFileClose(fout, fn);
 	emitInfoInUse(finfo, FTYPENO_ABSYN) = false;
 	emitSetDone(FTYPENO_ABSYN);
 }
@@ -837,7 +852,7 @@ emitTheOldAbSyn(EmitInfo finfo, AbSyn absyn)
 	emitInfoInUse(finfo, FTYPENO_OLDABSYN) = true;
 	fout = fileWrOpen(fn);
 	abWrSExpr(fout, absyn, emitSxIoMode);
-	fclose(fout);
+	emitFileClose(fout, fn);
 	emitInfoInUse(finfo, FTYPENO_OLDABSYN) = false;
 	emitSetDone(FTYPENO_OLDABSYN);
 }
@@ -864,7 +879,9 @@ emitTheIntermed(EmitInfo finfo, SymeList sl, Foam foam, AbSyn macs)
 	if (emitDoLineNos)
 		libPutPos(lib, foam);
 
-	libClose(lib);
+	if (!libClose(lib))
+		comsgFatal(NULL, ALDOR_F_CantOpenMode, fnameUnparseStatic(fn),
+			   "w (write failed)");
 	emitInfoInUse(finfo, FTYPENO_INTERMED) = false;
 	emitSetDone(FTYPENO_INTERMED);
 }
@@ -940,7 +957,7 @@ emitTheSymbolExpr(EmitInfo finfo, SymeList symes, AbSyn macs)
 	listFree(AbSyn)(tu->typesOther);
 	stoFree(tu);
 #endif
-	fclose(fout);
+	emitFileClose(fout, fn);
 	emitInfoInUse(finfo, FTYPENO_SYMEEXPR) = false;
 	emitSetDone(FTYPENO_SYMEEXPR);
 }
@@ -959,7 +976,7 @@ emitTheAnnotatedAbSyn(EmitInfo finfo, SExpr whole)
 	fout = fileWrOpen(fn);
 	sxiWrite(fout, whole, SXRW_Default);
 
-	fclose(fout);
+	emitFileClose(fout, fn);
 	emitInfoInUse(finfo, FTYPENO_ANNABS) = false;
 	emitSetDone(FTYPENO_ANNABS);
 }
@@ -978,7 +995,7 @@ emitTheFoamExpr(EmitInfo finfo, Foam foam)
 	emitInfoInUse(finfo, FTYPENO_FOAMEXPR) = true;
 	fout = fileWrOpen(fn);
 	foamWrSExpr(fout, foam, emitSxIoMode);
-	fclose(fout);
+	emitFileClose(fout, fn);
 	emitInfoInUse(finfo, FTYPENO_FOAMEXPR) = false;
 	emitSetDone(FTYPENO_FOAMEXPR);
 }
@@ -1017,7 +1034,7 @@ emitTheLisp(EmitInfo finfo, SExpr lispCode)
 		fprintf(fout, "\n");
 		sxiWrite(fout, sxCar(lispCode), glWriteMode | emitSxIoMode);
 	}
-	fclose(fout);
+	emitFileClose(fout, fn);
 	emitInfoInUse(finfo, FTYPENO_LISP) = false;
 	emitSetDone(FTYPENO_LISP);
 }
@@ -1034,7 +1051,7 @@ emitTheC(EmitInfo finfo, CCodeList cco)
 {
 	FILE		*fout=NULL, *hout = NULL;
 	String		fnstring;
-	FileName	srcfn, fn, hfn=NULL;
+	FileName	srcfn, fn, hfn=NULL, fnout=NULL;
 	CCodeMode	ccmode;
 	int		i, l = listLength(CCode)(cco);
 	Bool		stdc;
@@ -1073,8 +1090,10 @@ emitTheC(EmitInfo finfo, CCodeList cco)
 		if ((i || !hout) && i < l) {
 			if (ccoArgc(ccoArgv(car(cco))[0])) {
 				/* Need to check for name conflicts here. */
-				if (i == 1 || !hout)
+				if (i == 1 || !hout) {
+					fnout = fn;
 					fout  = fileWrOpen(fn);
+				}
 				else {
 					fnold = emitCName;
 					if (!fnold) fnold = fnameName(fn);
@@ -1093,6 +1112,7 @@ emitTheC(EmitInfo finfo, CCodeList cco)
 							 fnameType(fn));
 					/* Add to list of filenames */
 					finfo->flist = listCons(FileName)(fname, finfo->flist);
+					fnout = fname;
 					fout  = fileWrOpen(fname);
 				}
 				fnstring = fnameUnparseStaticWithout(srcfn);
@@ -1109,7 +1129,7 @@ emitTheC(EmitInfo finfo, CCodeList cco)
 					fprintf(fout, "\n#include \"%s\"",
 						fnameUnparseStatic(hfn));
 				ccoPrint(fout, car(cco), ccmode);
-				fclose(fout);
+				emitFileClose(fout, fnout);
 			}
 		}
 		else
@@ -1119,7 +1139,7 @@ emitTheC(EmitInfo finfo, CCodeList cco)
 	emitInfoInUse(finfo, FTYPENO_C) = false;
 	emitSetDone(FTYPENO_LISP);
 	if (hout) {
-		fclose(hout);
+		emitFileClose(hout, hfn);
 		emitInfoInUse(finfo, FTYPENO_H) = false;
 		emitSetDone(FTYPENO_H);
 	}
@@ -1211,7 +1231,7 @@ emitOneJavaFile(EmitInfo finfo, JavaCode javaFile)
 	jcoWrite(ctxt, javaFile);
 	jcoPContextFree(ctxt);
 	ostreamClose(ostream);
-	fclose(fout);
+	emitFileClose(fout, fn);
 }
 
 local FileName
